@@ -3,6 +3,7 @@ package c06
 import (
 	"fmt"
 	"math/rand"
+	"runtime"
 	"sort"
 	"strings"
 	"time"
@@ -891,4 +892,142 @@ func runRandomUniverse(c *fw.Ctx) {
 		}
 		execMatch(c, Case{Op: "match", Universe: "d:random", Filter: &f, Object: &obj})
 	}
+}
+
+// ---------------------------------------------------------------------------
+// (e) large-list universe: caldav.Filter over long lists
+// ---------------------------------------------------------------------------
+
+// LargeSpec generates one large-list Filter case; it is the witness.
+type LargeSpec struct {
+	N       int    `json:"n"`
+	Pattern string `json:"pattern"` // all | none | alternating | first-only | last-only | ends-only | random
+	Flavor  string `json:"flavor"`  // text | time-range
+	Heavy   string `json:"heavy"`   // none | front | back: where the expensive-to-match objects sit
+	Procs   int    `json:"gomaxprocs"`
+	Seed    int64  `json:"seed"`
+	Nil     bool   `json:"nil_query,omitempty"`
+	Request bool   `json:"with_request,omitempty"`
+}
+
+var (
+	largeLengths  = []int{16, 17, 31, 32, 33, 64, 65, 100, 127, 128, 129, 130, 255, 256, 257, 500, 511, 512, 513, 1000, 1024, 1025, 2048, 2049, 4096}
+	largePatterns = []string{"all", "none", "alternating", "first-only", "last-only", "ends-only", "random"}
+)
+
+// buildLarge builds the query and the objects. Object i matches iff the
+// pattern says so; objects vary in shape, and "heavy" ones (recurring with
+// many instances, several alarms and properties) cost more to match.
+func buildLarge(sp LargeSpec) (*CompFilter, []Comp) {
+	r := rand.New(rand.NewSource(sp.Seed*1000003 + int64(sp.N)))
+	want := func(i int) bool {
+		switch sp.Pattern {
+		case "all":
+			return true
+		case "none":
+			return false
+		case "alternating":
+			return i%2 == 0
+		case "first-only":
+			return i == 0
+		case "last-only":
+			return i == sp.N-1
+		case "ends-only":
+			return i == 0 || i == sp.N-1
+		}
+		return r.Intn(2) == 0
+	}
+	objs := make([]Comp, sp.N)
+	for i := range objs {
+		m := want(i)
+		heavy := (sp.Heavy == "front" && i < sp.N/4) || (sp.Heavy == "back" && i >= sp.N-sp.N/4)
+		ev := Comp{Name: "VEVENT", Props: []Prop{rawProp("UID", fmt.Sprintf("u%d", i))}}
+		// time: strictly inside [g(1), g(4)) when matching, far away otherwise
+		S := g(2)
+		if !m || sp.Flavor != "time-range" {
+			S = g(200 + i%7)
+		}
+		if sp.Flavor == "time-range" && m && heavy {
+			// first instance long before the range, a later one inside it
+			S = g(2).Add(-20 * 24 * time.Hour)
+		}
+		switch i % 3 {
+		case 0:
+			ev.Props = append(ev.Props, dtProp("DTSTART", S, "utc"), dtProp("DTEND", S.Add(time.Hour), "utc"))
+		case 1:
+			ev.Props = append(ev.Props, dtProp("DTSTART", S, "utc"), durProp(30*time.Minute))
+		default:
+			ev.Props = append(ev.Props, dtProp("DTSTART", S, "utc"))
+		}
+		if heavy {
+			ev.Props = append(ev.Props, rawProp("RRULE", "FREQ=DAILY;COUNT=40"))
+			for k := 0; k < 4; k++ {
+				ev.Children = append(ev.Children, Comp{Name: "VALARM", Props: []Prop{textProp("DESCRIPTION", "alarm")}})
+				ev.Props = append(ev.Props, textProp("X-PAD", fmt.Sprintf("padding %d", k)))
+			}
+		}
+		sum := "no such thing"
+		if m || sp.Flavor != "text" {
+			sum = fmt.Sprintf("yes %d", i)
+		}
+		ev.Props = append(ev.Props, textProp("SUMMARY", sum))
+		cal := vcal(ev)
+		if i%5 == 0 {
+			cal = vcal(Comp{Name: "VTODO", Props: []Prop{textProp("SUMMARY", "yes")}}, ev)
+		}
+		objs[i] = cal
+	}
+	if sp.Nil {
+		return nil, objs
+	}
+	f := CompFilter{Name: "VCALENDAR"}
+	if sp.Flavor == "time-range" {
+		f.Comps = []CompFilter{{Name: "VEVENT", Start: mkTime(g(1), ""), End: mkTime(g(4), "")}}
+	} else {
+		f.Comps = []CompFilter{{Name: "VEVENT", Props: []PropFilter{{Name: "SUMMARY", Text: &TextMatch{Text: "yes"}}}}}
+	}
+	return &f, objs
+}
+
+func execLarge(c *fw.Ctx, sp LargeSpec) {
+	f, objs := buildLarge(sp)
+	if sp.Procs > 0 {
+		prev := runtime.GOMAXPROCS(sp.Procs)
+		defer runtime.GOMAXPROCS(prev)
+	}
+	execFilter(c, Case{Op: "filter", Universe: "e:large-lists", Filter: f, Objects: objs, WithRequest: sp.Request, Large: &sp})
+}
+
+func runLargeListUniverse(c *fw.Ctx, deal func() bool) {
+	procs := []int{1, 4}
+	reps := 2
+	if c.Thorough() {
+		procs = []int{1, 2, 8}
+		reps = 4
+	}
+	k := 0
+	for rep := 0; rep < reps; rep++ {
+		for _, n := range largeLengths {
+			for _, pat := range largePatterns {
+				for _, p := range procs {
+					k++
+					if !deal() {
+						continue
+					}
+					sp := LargeSpec{N: n, Pattern: pat, Procs: p, Seed: c.Seed*31 + int64(rep),
+						Flavor:  []string{"text", "time-range"}[(k/2)%2],
+						Heavy:   []string{"none", "front", "back"}[(k/3)%3],
+						Request: k%4 == 0}
+					execLarge(c, sp)
+				}
+			}
+			// nil query over a long list: the whole input
+			for _, p := range procs {
+				if deal() {
+					execLarge(c, LargeSpec{N: n, Pattern: "random", Flavor: "text", Heavy: "none", Procs: p, Seed: c.Seed*31 + int64(rep), Nil: true})
+				}
+			}
+		}
+	}
+	c.Note("universe_e", fmt.Sprintf("large lists: lengths %v x patterns %v x GOMAXPROCS %v x %d repetitions", largeLengths, largePatterns, procs, reps))
 }
